@@ -360,6 +360,8 @@ def gen_cases(ctx):
                     yield dict(set='served', integration=integration, base=base, layout=layout, kind=kind)
                     if layout == 'two-specs':
                         yield dict(set='served', integration=integration, base=base, layout=layout, kind=kind, first=False)
+                    if layout == 'endpoint' and kind == 'openapi' and base == '/api':
+                        yield dict(set='served', integration=integration, base=base, layout=layout, kind=kind, noprefix=True)
     # two threads generating from one specification object: methods with different component prefixes / error lists / tags
     K = 8
     for kind in ('openapi-3.1', 'openrpc'):
@@ -575,21 +577,38 @@ def run_served(case, rec):
         integ = Integration(kind, base, spec=spec, mount=mount or None)
     is_async = kind == 'aiohttp'
 
-    def mk(tag):
-        if is_async:
+    def mk(tag, variant):
+        # the same method name has another signature on another endpoint (API versions)
+        if variant:
+            if is_async:
+                async def f(b: str = 'x', *, c: int = 1) -> str:
+                    return tag
+            else:
+                def f(b: str = 'x', *, c: int = 1) -> str:
+                    return tag
+        elif is_async:
             async def f(a: int = 0) -> str:
                 return tag
         else:
             def f(a: int = 0) -> str:
                 return tag
+        # documentation supplied by the user that holds a member of a plain enum (the specification encoder renders it); the
+        # variant carries its own component name prefix - the documented way to keep same-named methods apart in one document
+        okw = dict(component_name_prefix='V2') if (variant and not case.get('noprefix')) else {}
+        f = openapi.annotate(examples=[openapi.MethodExample(params={'a': Color.RED}, result=Color.BLUE, summary='e')], **okw)(f)
+        f = openrpc.annotate(examples=[openrpc.MethodExample(name='e', params=[openrpc.ExampleObject(value=Color.RED, name='a')],
+                                                              result=openrpc.ExampleObject(value=Color.BLUE, name='r'))])(f)
         return f
     registered = {}          # (url path, method name) -> tag
+    truth_params = {}        # (url path, method name) -> documented parameter names
 
     def reg(dispatcher, url, names):
         for n in names:
             tag = '%s:%s' % (url, n)
-            dispatcher.add(mk(tag), name=n)
+            variant = (n == 'shared' and url != base)
+            dispatcher.add(mk(tag, variant), name=n)
             registered[(url, n)] = tag
+            truth_params[(url, n)] = ['b', 'c'] if variant else ['a']
     rpc = integ.rpc
     reg(rpc.dispatcher, base, ['alpha', 'shared'])
     if layout in ('endpoint', 'two-endpoints'):
@@ -607,6 +626,7 @@ def run_served(case, rec):
     c = dict(case)
     base = mount + base          # where the application really serves the extension
     registered = {(mount + u, n): t for (u, n), t in registered.items()}
+    truth_params = {(mount + u, n): t for (u, n), t in truth_params.items()}
     rep = integ.get('%s/%s' % (base, spec.path.lstrip('/')))
     rec.transitions += 1
     if rep.raised or rep.status != 200:
@@ -632,6 +652,22 @@ def run_served(case, rec):
     if documented != want:
         rec.violation('C16:%s:served:documented (path, method) pairs differ from the registered ones' % speckind, c,
                       expected=sorted(want), observed=sorted(documented))
+    from . import c17
+    for url, name in sorted(documented & want):
+        # the parameters documented for (path, method) are those of the function registered THERE
+        try:
+            if speckind == 'openrpc':
+                got_params = c17.openrpc_params(doc, name)[0]
+            else:
+                key = [k for k in doc['paths'] if k == '%s#%s' % (url, name)][0]
+                schema = c17.resolve(doc, doc['paths'][key]['post']['requestBody']['content']['application/json']['schema'])
+                got_params = sorted(c17.resolve(doc, schema['properties']['params']).get('properties', {}))
+        except Exception as e:   # noqa
+            got_params = 'unreadable: %s' % type(e).__name__
+        if got_params != sorted(truth_params[(url, name)]):
+            rec.violation('C16:%s:served:the parameters documented for a path#method are not those of the method registered there%s' % (
+                speckind, ' (same method name on two endpoints, no component_name_prefix)' if case.get('noprefix') else ''), dict(c, url=url, method=name),
+                          expected=sorted(truth_params[(url, name)]), observed=got_params)
     for url, name in sorted(documented & want):
         r = integ.post(json.dumps({'jsonrpc': '2.0', 'id': 1, 'method': name}).encode(), 'application/json', path=url)
         rec.transitions += 1
@@ -764,7 +800,7 @@ def replay(doc):
     from mc.core import Ctx, Recorder, jdump
     rec = Recorder()
     c = doc['case']
-    case = {k: c[k] for k in ('set', 'atoms', 'stack', 'kind', 'prefix', 'variant', 'sequence', 'late_error', 'alias', 'integration', 'base', 'layout', 'first', 'budget', 'shard') if k in c}
+    case = {k: c[k] for k in ('set', 'atoms', 'stack', 'kind', 'prefix', 'variant', 'sequence', 'late_error', 'alias', 'integration', 'base', 'layout', 'first', 'budget', 'shard', 'noprefix') if k in c}
     run_case(case, rec)
     ctx = Ctx('C16', 'quick', 0, 1)
     ctx.rec = rec
